@@ -125,6 +125,32 @@ class Doc(object):
         ns = self.ids.get(tid)
         return ns[0] if ns else None
 
+    def expanded_key(self, tid, names=None, _depth=0):
+        """Like type_key but with typedefs expanded; typedef names met on the way are appended to `names`."""
+        from . import progen
+        n = self.node_of(tid)
+        if n is None or _depth > 60:
+            return "?"
+        t, a = n.tag, n.attrs
+        if t == "typedef-decl":
+            if names is not None:
+                names.append(a.get("name", ""))
+            return self.expanded_key(a["type-id"], names, _depth + 1)
+        if t == "pointer-type-def":
+            return "ptr(%s)" % self.expanded_key(a["type-id"], names, _depth + 1)
+        if t == "qualified-type-def":
+            return progen.qual_key(self.expanded_key(a["type-id"], names, _depth + 1), a.get("const") == "yes", a.get("volatile") == "yes")
+        if t == "array-type-def":
+            k = self.expanded_key(a["type-id"], names, _depth + 1)
+            dims = []
+            for sr in n.find("subrange"):
+                ln = sr.attrs.get("length", "")
+                dims.append("" if ln in ("infinite", "unknown") else ln)
+            for d in reversed(dims):
+                k = "array[%s](%s)" % (d, k)
+            return k
+        return self.type_key(tid, _depth)
+
     def type_key(self, tid, _depth=0):
         """Canonical type string in the same vocabulary as progen.Type.key()."""
         from . import progen
